@@ -60,7 +60,7 @@ def code_lines(path):
     skip_depth = None
     for i, l in enumerate(lines):
         s = l.strip()
-        if s.startswith("#[cfg(test)]"):
+        if s.startswith("#[cfg(test)]") or s.startswith("#[cfg(all(test"):
             in_tests = True
         if in_tests:
             continue
